@@ -172,7 +172,7 @@ impl TRun {
             let (g, _) = w.cv.wait_timeout(c, Duration::from_secs(2)).unwrap();
             c = g;
             if c.running != 0 && t0.elapsed() > Duration::from_secs(30) {
-                eprintln!("MACHINERY: watchdog: activity {id} neither finished nor reached a point within 30s");
+                println!("MACHINERY: watchdog: activity {id} neither finished nor reached a point within 30s");
                 std::process::exit(2);
             }
         }
@@ -222,7 +222,7 @@ impl TRun {
                 ch.set_width(didx, points as usize + 1);
             } else {
                 if completed {
-                    eprintln!("MACHINERY: replay divergence: activity finished before preemption point {how}");
+                    println!("MACHINERY: replay divergence: activity finished before preemption point {how}");
                     std::process::exit(2);
                 }
                 // alternatives of this decision were generated by the run that discovered the points
